@@ -197,7 +197,7 @@ def run(pid, tier):
             traces.append(rnd)
         st = validate(pid, traces, tag, V, shards=12)
         n, nd, samples = count_owned(traces, pid)
-        bind = binding_demo(pid, traces[0], d, tag) if traces else {}
+        bind = binding_demo(pid, traces[0], d, tag) if traces and not V.viol else {"skipped": "violations were found"}
         cov = dict(states=mc["distinct"], transitions=mc["generated"], depth=mc["depth"], action_coverage=mc["coverage"],
                    traces_validated_against_impl=st["events"], evaluations=n, distinct_nontrivial=nd,
                    rule="one trace = one real calendar object (Cal / UnionCal / NamedCal / CalType) with its query battery; a query is counted once per (calendar, arguments); generated family = every holiday subset x settlement subset x mask of MC_Calendar's Init, random family = seeded calendars 1972-2198 incl. built-in names",
@@ -227,7 +227,7 @@ def run(pid, tier):
             traces.append(rnd)
         st = validate(pid, traces, tag, V, shards=12)
         n, nd, samples = count_owned(traces, pid)
-        bind = binding_demo(pid, rnd, d, tag) if rnd in traces else {}
+        bind = binding_demo(pid, rnd, d, tag) if rnd in traces and not V.viol else {"skipped": "violations were found"}
         cov = dict(states=sum(r.get("distinct", 0) for r in mrs), transitions=sum(r.get("generated", 0) for r in mrs),
                    traces_validated_against_impl=st["events"], evaluations=n, distinct_nontrivial=nd,
                    rule="model: one state per (year, start month, start day, offset), invariant over 35 roll kinds; traces: add_months(Act) on the all-days calendar for covering (month, offset, roll) classes, get_roll / get_imm / get_eom / is_imm / is_eom for every month and is_leap_year for every year 1970-2200, add_months with other modifiers on random calendars",
